@@ -161,7 +161,7 @@ def model_world(world, extmod=None):
 
 VAR_VALUES = [jv("int", "0"), jv("int", "5"), jv("str", "a"), jv("str", ""), jv("int", "-3"),
               jv("list", [jv("int", "1"), jv("str", "x")]), jv("dict", [[jv("str", "k"), jv("int", "1")]]),
-              jv("list", [jv("int", "2")])]
+              jv("list", [jv("int", "2")]), jv("bool", True), jv("none"), jv("tuple", [jv("int", "7"), jv("str", "y")])]
 # NB: both pools are injective for dds_hash (no two members in one C05 collision class: no True next to 1,
 # no [] next to ''), so that a C05 identification never shows up as a C01 staleness.
 CONSTS = [jv("int", "1"), jv("int", "2"), jv("str", "s"), jv("none"), jv("bool", False), jv("str", "")]
